@@ -21,7 +21,8 @@ uint32_t lec_backend_version(int be);      /* read from the exported backend des
 
 /* configuration sets */
 int cfgs_rs(cfg_t *out, int max, int be, int thorough, uint64_t seed);   /* (k,m) shapes for an RS-like backend */
-int cfgs_xor(cfg_t *out, int max);                                        /* the 38 tables */
+int cfgs_xor(cfg_t *out, int max);
+int cfgs_shss(cfg_t *out, int max);                                       /* stand-in libshss shapes (backend metadata = 32 bytes) */                                        /* the 38 tables */
 
 /* ---- generator rows / recoverability oracle ---- */
 typedef struct {
